@@ -104,8 +104,7 @@ Section P.
         * discriminate.
       + destruct (pw_sel fi r (pieces e)) as [[w'|]|] eqn:Esel; try discriminate.
         cbn [sel_value] in He. cbn [after] in Hx. eexists; split; [exact Hx|]. rewrite He. intro y; reflexivity.
-    - unfold print_stmt in Hp. destruct (negb (g_printable e)); [discriminate|].
-      rewrite Hpw in Hp. inversion Hp; subst.
+    - unfold print_stmt in Hp. rewrite Hpw in Hp. inversion Hp; subst.
       cbn [nm_exec nm_exec1 exec_simple]. eexists; split; [reflexivity|]. rewrite He. intro y; reflexivity.
   Qed.
 
